@@ -216,6 +216,7 @@ func init() {
 		ruleCornerTables,
 		ruleEndpointOrder,
 		ruleCompactionIndex(inPkgs("clip/smartclip."), 1),
+		ruleCompose(smartclipSpecs, 6),
 	)
 
 	register("C17",
@@ -240,6 +241,15 @@ func init() {
 		ruleLastIterationWins(notGenerated, 100),
 		ruleDispatchDelegation([]string{"maptile/tilecover", "clip", "project", "clip/smartclip"}, 20),
 	)
+
+	// table rules whose clauses the A-comp rules of the same property decide semantically
+	backedBy("C01", "T1-", "T1c-", "T2-", "T3-")
+	backedBy("C11", "T9-")
+	backedBy("C17", "D3-", "D2-")
+	backedBy("C07", "T7-")
+	backedBy("C08", "T7-")
+	backedBy("C10", "D3-", "D2-")
+	backedBy("C18", "D3-", "D2-")
 }
 
 func quadtreeQueries(c *Ctx) []effectEntry {
